@@ -218,6 +218,10 @@ type committedReader struct {
 	pos   int64
 	hwPos int64
 	hw    int64
+	// start is the offset a reader parked above the HW was asked to start at,
+	// if that offset is in the log (the uncommitted tail) or the log's next
+	// offset, otherwise -1.
+	start int64
 }
 
 func (r *committedReader) Read(ctx context.Context, p []byte) (n int, err error) {
@@ -230,8 +234,14 @@ func (r *committedReader) Read(ctx context.Context, p []byte) (n int, err error)
 	// for data.
 	if r.seg == nil {
 		offset := r.hw + 1 // We want to read the next committed message.
+		if r.start > offset {
+			// The reader was started in the uncommitted tail of the log, so
+			// it begins at its start offset once that offset is committed
+			// rather than at the first message committed after it was created.
+			offset = r.start
+		}
 		hw := r.cl.HighWatermark()
-		for hw == r.hw {
+		for hw < offset {
 			// The HW has not changed, so wait for it to update.
 			err = r.waitForHW(ctx, hw)
 			if err != nil {
@@ -367,6 +377,12 @@ func (l *commitLog) newReaderCommitted(offset int64) (contextReader, error) {
 	// If offset exceeds HW, wait for the next message. This also covers the
 	// case when the log is empty.
 	if offset > hw || l.OldestOffset() == -1 {
+		// An offset beyond the next offset of the log is capped: the reader
+		// gets the next committed message.
+		start := int64(-1)
+		if offset <= l.NewestOffset()+1 {
+			start = offset
+		}
 		return &committedReader{
 			cl:    l,
 			seg:   nil,
@@ -374,6 +390,7 @@ func (l *commitLog) newReaderCommitted(offset int64) (contextReader, error) {
 			hwSeg: hwSeg,
 			hwPos: hwPos,
 			hw:    hw,
+			start: start,
 		}, nil
 	}
 
@@ -402,6 +419,7 @@ func (l *commitLog) newReaderCommitted(offset int64) (contextReader, error) {
 		hwSeg: hwSeg,
 		hwPos: hwPos,
 		hw:    hw,
+		start: -1,
 	}, nil
 }
 
